@@ -391,7 +391,7 @@ pub fn run(ctx: &Ctx) {
         let c = Case { proc_name: name.to_string(), expr: app(name, vec![Expr::Quote(d.clone())]), nontrivial: true, append_improper_last: false, equal_on_vectors: false };
         Some(judge_case(&c))
     });
-    let per = ctx.tier.pick(300, 3000);
+    let per = ctx.tier.pick(500, 3000);
     for p in PROCS.iter() {
         ctx.random(p, per, 200, |ch| {
             let c = gen_case(ch, p);
